@@ -1219,6 +1219,7 @@ impl Connection {
                     debug!("path validation failed");
                     if let Some((_, prev)) = self.prev_path.take() {
                         self.path = prev;
+                        self.drop_oversized_datagrams();
                         self.set_loss_detection_timer(now);
                     }
                     self.path.challenge = None;
@@ -1864,14 +1865,7 @@ impl Connection {
                 self.path
                     .congestion
                     .on_mtu_update(self.path.mtud.current_mtu());
-                if let Some(max_datagram_size) = self.datagrams().max_size() {
-                    if self.datagrams.drop_oversized(max_datagram_size)
-                        && self.datagrams.send_blocked
-                    {
-                        self.datagrams.send_blocked = false;
-                        self.events.push_back(Event::DatagramsUnblocked);
-                    }
-                }
+                self.drop_oversized_datagrams();
             }
 
             // Don't apply congestion penalty for lost ack-only packets
@@ -3221,6 +3215,8 @@ impl Connection {
         let prev_pto = self.pto(SpaceId::Data);
 
         let mut prev = mem::replace(&mut self.path, new_path);
+        // The new path may start from a smaller MTU than the old one had reached
+        self.drop_oversized_datagrams();
         // Don't clobber the original path if the previous one hasn't been validated yet
         if prev.challenge.is_none() {
             prev.challenge = Some(self.rng.random());
@@ -3234,6 +3230,18 @@ impl Connection {
             Timer::PathValidation,
             now + 3 * cmp::max(self.pto(SpaceId::Data), prev_pto),
         );
+    }
+
+    /// Discard queued datagrams that no longer fit in a packet on the current path
+    ///
+    /// Without this a datagram accepted under a larger MTU would block the queue for good.
+    fn drop_oversized_datagrams(&mut self) {
+        if let Some(max_datagram_size) = self.datagrams().max_size() {
+            if self.datagrams.drop_oversized(max_datagram_size) && self.datagrams.send_blocked {
+                self.datagrams.send_blocked = false;
+                self.events.push_back(Event::DatagramsUnblocked);
+            }
+        }
     }
 
     /// Handle a change in the local address, i.e. an active migration
